@@ -12,10 +12,25 @@
 //            the last release).  Before each release a thread draws a stamp from one
 //            global atomic counter; the pointee's destructor draws one too.
 //   optionally one thread keeps one handle ("keep"): that object must survive.
+// A second action, "AcquireRounds": concurrent ACQUISITION THROUGH ONE BORROWED REFERENCE.
+//   Per round the main thread creates a fresh object whose count is exactly `start` (1: only
+//   the lender's reference - the creator's, or one shared handle; 2, 3: plus handles of the
+//   main thread).  k persistent workers, which own nothing, leave a SPIN barrier together and
+//   each take a reference through that borrowed one: IntrusivePtr from the raw pointer, copy
+//   of the one shared handle, or refInc().  At the next barrier (all handles alive, nobody
+//   operating) main reads useCount(); the workers then release concurrently; at the next
+//   quiescent point main reads the count again and whether the destructor already ran, and
+//   finally releases its own references.  The pointee storage of this action is QUARANTINED
+//   (operator delete keeps it, nothing is reused), so a too-early destruction is observed as a
+//   fact (destructor log) instead of being undefined behaviour.  A worker notes whether any
+//   other worker had already finished when it started: rounds in which at least two workers
+//   started before anybody finished are reported as overlapping.  Identical round outcomes are
+//   reported once with their multiplicity (lossless).
 // The driver only reports the books, the counts read and the destructor log;
 // the trace specification decides (conservation, destruction exactly once and only
 // after the last release).  Built plain and with -fsanitize=thread.
 #include <atomic>
+#include <chrono>
 #include <condition_variable>
 #include <mutex>
 #include <thread>
@@ -284,6 +299,177 @@ static void worker(Run *R, int t, unsigned long long seed)
   }
 }
 
+// ---------------------------------------------------------------------------------------------
+// AcquireRounds
+// ---------------------------------------------------------------------------------------------
+static std::atomic<long long> g_rdtors{0};
+struct RNode : public rkcommon::memory::RefCountedObject
+{
+  long long tag;
+  RNode() : tag(0x52) {}
+  virtual ~RNode()
+  {
+    tag = 0;
+    g_rdtors.fetch_add(1);
+  }
+  static void operator delete(void *) {}  // quarantine: the storage is never handed out again
+};
+typedef IntrusivePtr<RNode> HR;
+
+static inline void cpuRelax()
+{
+#if defined(__x86_64__) || defined(__i386__)
+  __builtin_ia32_pause();
+#endif
+}
+// spinning barrier (no sleeping; yields only after a long spin so that an oversubscribed machine still makes progress)
+struct SpinBarrier
+{
+  std::atomic<int> waiting{0};
+  std::atomic<int> gen{0};
+  int n;
+  explicit SpinBarrier(int n_) : n(n_) {}
+  void wait()
+  {
+    const int g = gen.load();
+    if (waiting.fetch_add(1) + 1 == n) {
+      waiting.store(0);
+      gen.fetch_add(1);
+    } else {
+      long spins = 0;
+      while (gen.load() == g) {
+        cpuRelax();
+        if (++spins > 20000) std::this_thread::yield();
+      }
+    }
+  }
+};
+
+struct Rounds
+{
+  int k, start;
+  int how;  // 0 raw pointer, 1 copy of the shared handle, 2 refInc(), 3 mixed (differs per worker and round)
+  long long rounds;
+  SpinBarrier bar;
+  std::atomic<int> quit{0};
+  std::atomic<int> done{0};   // workers that finished their acquisition in this round
+  std::atomic<int> early{0};  // workers that started while nobody had finished
+  RNode *obj = nullptr;
+  HR *shared = nullptr;
+  Rounds(int k_, int start_, int how_, long long r) : k(k_), start(start_), how(how_), rounds(r), bar(k_ + 1) {}
+};
+
+static void roundWorker(Rounds *R, int w)
+{
+  alignas(16) unsigned char mem[sizeof(HR)];
+  for (long long r = 0;; ++r) {
+    R->bar.wait();  // A: main has prepared the round
+    if (R->quit.load()) break;
+    const int mode = R->how == 3 ? (int)((r + w) % 3) : R->how;
+    RNode *const p = R->obj;
+    const int seen = R->done.load();
+    if (mode == 0) new (mem) HR(p);             // raw-pointer constructor
+    else if (mode == 1) new (mem) HR(*R->shared);  // copy of the one shared handle
+    else p->refInc();                            // explicit reference
+    R->done.fetch_add(1);
+    if (seen == 0) R->early.fetch_add(1);
+    R->bar.wait();  // B: everybody holds a reference; main reads the count
+    R->bar.wait();  // C: main has read
+    if (mode == 2) p->refDec();
+    else reinterpret_cast<HR *>(mem)->~HR();
+    R->bar.wait();  // D: everybody has released; main reads again and releases its own
+  }
+}
+
+static Json runRounds(const Json &arg)
+{
+  int k = (int)arg["threads"].num();
+  if (k < 1) k = 1;
+  if (k > 16) k = 16;
+  int start = arg.has("start") ? (int)arg["start"].num() : 1;
+  if (start < 1) start = 1;
+  if (start > 3) start = 3;
+  const std::string hs = arg.has("how") ? arg["how"].str() : "raw";
+  const int how = hs == "raw" ? 0 : hs == "copy" ? 1 : hs == "refinc" ? 2 : 3;
+  const long long rounds = arg["rounds"].num();
+  const long long maxms = arg.has("maxms") ? arg["maxms"].num() : 4000;
+  Rounds *R = new Rounds(k, start, how, rounds);
+  std::vector<std::thread> th;
+  for (int w = 0; w < k; ++w) th.emplace_back(roundWorker, R, w);
+  // outcome of a round: count with all handles alive, destructions so far, count after the workers released,
+  // destructions before main released anything, destructions at the end, overlapping (0/1)
+  std::vector<std::vector<long long>> kinds;
+  std::vector<long long> mult;
+  long long performed = 0, overlapping = 0;
+  const auto t0 = std::chrono::steady_clock::now();
+  for (long long r = 0; r < rounds; ++r) {
+    if ((r & 63) == 63 &&
+        std::chrono::duration_cast<std::chrono::milliseconds>(std::chrono::steady_clock::now() - t0).count() > maxms)
+      break;
+    const long long d0 = g_rdtors.load();
+    RNode *o = new RNode();  // count 1: the creator's reference
+    HR extra[2];
+    for (int i = 0; i + 1 < start; ++i) extra[i] = o;  // count start
+    const bool viaHandle = how == 1 || how == 3;
+    if (viaHandle) {
+      R->shared = new HR(o);  // the lender's reference becomes the shared handle ...
+      o->refDec();            // ... and the creator's own is given up: the count is `start` again
+    }
+    R->obj = o;
+    R->done.store(0);
+    R->early.store(0);
+    R->bar.wait();  // A
+    R->bar.wait();  // B: quiescent, every worker holds its reference
+    const long long dMid = g_rdtors.load() - d0;
+    const long long mid = dMid ? -1 : o->useCount();
+    const int ov = R->early.load() >= 2 ? 1 : 0;
+    R->bar.wait();  // C
+    R->bar.wait();  // D: quiescent, every worker has released
+    const long long dAfter = g_rdtors.load() - d0;
+    const long long after = dAfter ? -1 : o->useCount();
+    if (dAfter == 0) {  // (a destroyed object is not touched again)
+      for (int i = 0; i + 1 < start; ++i) extra[i] = nullptr;
+      if (viaHandle) delete R->shared;  // the lender's release
+      else o->refDec();
+    } else {
+      for (int i = 0; i + 1 < start; ++i) new (&extra[i]) HR();  // forget the handles without releasing
+    }
+    const long long dEnd = g_rdtors.load() - d0;
+    std::vector<long long> kind;
+    kind.push_back(mid); kind.push_back(dMid); kind.push_back(after); kind.push_back(dAfter); kind.push_back(dEnd); kind.push_back(ov);
+    size_t j = 0;
+    for (; j < kinds.size(); ++j)
+      if (kinds[j] == kind) break;
+    if (j == kinds.size()) { kinds.push_back(kind); mult.push_back(0); }
+    mult[j]++;
+    performed++;
+    overlapping += ov;
+  }
+  R->quit.store(1);
+  R->bar.wait();
+  for (auto &x : th) x.join();
+  Json out = Json::object();
+  out.set("threads", (long long)k);
+  out.set("start", (long long)start);
+  out.set("how", hs);
+  out.set("rounds", performed);
+  out.set("overlapping", overlapping);
+  Json ks = Json::array();
+  for (size_t j = 0; j < kinds.size(); ++j) {
+    Json e = Json::object();
+    e.set("mid", kinds[j][0]);
+    e.set("destroyedMid", kinds[j][1]);
+    e.set("after", kinds[j][2]);
+    e.set("destroyedAfter", kinds[j][3]);
+    e.set("destroyedEnd", kinds[j][4]);
+    e.set("overlap", kinds[j][5]);
+    e.set("n", mult[j]);
+    ks.push(e);
+  }
+  out.set("outcomes", ks);
+  return out;
+}
+
 static Json arr(const long long *v, int n)
 {
   Json a = Json::array();
@@ -297,6 +483,7 @@ struct World
   Json step(const Json &act)
   {
     Json out = Json::object();
+    if (act["a"].str() == "AcquireRounds") return runRounds(act["arg"]);
     if (act["a"].str() != "Burst") {
       out.set("ret", "unknown action");
       return out;
